@@ -13,11 +13,12 @@
 (*     and re-parsing the stored bytes must give the same count, checksum  *)
 (*     and bytes.                                                          *)
 (*                                                                         *)
-(* cfg constants:  MaxLines, Shapes <- ShapesFull | ShapesCore             *)
+(* cfg constants:  MaxLines, Shapes <- ShapesFull | ShapesCore,            *)
+(*                 Endings <- EndingsAll | EndingsLFCR                     *)
 (***************************************************************************)
 EXTENDS RuleListCore, TLC, Json
 
-CONSTANTS MaxLines, Shapes
+CONSTANTS MaxLines, Shapes, Endings
 
 \* Line shapes (token sequences, without the ending).
 ShapesCore == {
@@ -42,7 +43,8 @@ ShapesFull == ShapesCore \cup {
     <<"R2", "SP", "HASH">>    \* "rule # trailing text" is a rule
 }
 
-Endings == {<<"LF">>, <<"CR", "LF">>, <<"CR">>}
+EndingsAll  == {<<"LF">>, <<"CR", "LF">>, <<"CR">>}
+EndingsLFCR == {<<"LF">>, <<"CR", "LF">>}
 
 VARIABLES st,      \* "init" | "build"
           text,    \* tokens so far; every line so far is terminated
@@ -80,25 +82,28 @@ Spec == Init /\ [][Next]_vars
 Here == {text} \cup (IF text # <<>> /\ text[Len(text)] = "LF"
                      THEN {SubSeq(text, 1, Len(text) - 1)} ELSE {})
 
-NormalFormIsFixedPoint == \A t \in Here : FixedPoint(t)
-NormalIsClean          == \A t \in Here : Parse(t).ok => Clean(Parse(t).rules)
-\* Stored lines are lines of the input: nothing is invented.
-RulesAreInputLines ==
-    \A t \in Here : \A i \in DOMAIN Parse(t).rules :
-        \E j \in DOMAIN Lines(t) : Trim(Lines(t)[j]) = Parse(t).rules[i]
-\* The enumerated failures are failures: an HTML line before any rule, a
-\* control byte in a line that is not a comment.
-HTMLFirstFails ==
-    \A t \in Here :
-        (\E j \in DOMAIN Lines(t) :
-            /\ Trim(Lines(t)[j]) # <<>> /\ Head(Trim(Lines(t)[j])) = "HTML"
-            /\ \A k \in 1..(j - 1) : Class(Trim(Lines(t)[k]), TRUE) \in {"blank", "comment"})
+\* One text against the statement (one operator so that TLC parses t once).
+Props(t) ==
+    LET ls == Lines(t)
+        p  == Parse(t)
+        tr == [j \in DOMAIN ls |-> Trim(ls[j])]
+    IN
+    \* NormalFormIsFixedPoint
+    /\ FixedPoint(t)
+    \* NormalIsClean: comments and blank lines dropped, lines trimmed
+    /\ p.ok => Clean(p.rules)
+    \* RulesAreInputLines: nothing is invented
+    /\ \A i \in DOMAIN p.rules : \E j \in DOMAIN ls : tr[j] = p.rules[i]
+    \* HTMLFirstFails: an HTML line before any rule is a failure
+    /\ (\E j \in DOMAIN ls :
+            /\ tr[j] # <<>> /\ Head(tr[j]) = "HTML"
+            /\ \A k \in 1..(j - 1) : Class(tr[k], TRUE) \in {"blank", "comment"})
         => Admissible(t) = {Fail}
-BinaryFails ==
-    \A t \in Here :
-        (Lines(t) # <<>> /\ LET l1 == Trim(Lines(t)[1]) IN
-            l1 # <<>> /\ Head(l1) \notin Comment /\ Has(l1, Control))
+    \* BinaryFails: a control byte in a first line that is not a comment
+    /\ (ls # <<>> /\ tr[1] # <<>> /\ Head(tr[1]) \notin Comment /\ Has(tr[1], Control))
         => Admissible(t) = {Fail}
-\* A text without any soft feature has exactly one outcome.
-Deterministic == \A t \in Here : ~Soft(t) => Cardinality(Admissible(t)) = 1
+    \* Deterministic: without a soft feature there is exactly one outcome
+    /\ ~Soft(t) => Cardinality(Admissible(t)) = 1
+
+Statement == \A t \in Here : Props(t)
 =============================================================================
